@@ -224,7 +224,8 @@ func Main(ck *Check) {
 		fmt.Sscan(s, &seed)
 	}
 	if ck.Horizon == 0 {
-		ck.Horizon = 120 * time.Second
+		// no-progress horizon: far above the slowest legitimate case even on a loaded machine
+		ck.Horizon = 10 * time.Minute
 	}
 	ck.only = *only
 	if *only != "" {
